@@ -103,10 +103,10 @@ static size_t nmvalue(int c, size_t sz, unsigned salt)
 
 /* slice bound classes, relative to the source view (off, len, rem = nm - off) */
 enum { S_0, S_1, S_2, S_IN, S_LENM1, S_LEN, S_LEN1, S_REMM1, S_REM, S_REM1, S_MAX, S_MAXM1,
-       S_MAXOFF, S_MAXOFF1, S_MAXOFF2, S_MAXOFFM1, S_WRAPREM, S_NCLS };
+       S_MAXOFF, S_MAXOFF1, S_MAXOFF2, S_MAXOFFM1, S_WRAPREM, S_HALF, S_NCLS };
 static const char *const sname[S_NCLS] = {
     "0", "1", "2", "in-range", "size-1", "size", "size+1", "bufend-1", "bufend", "bufend+1", "size_max", "size_max-1",
-    "size_max-off", "size_max-off+1", "size_max-off+2", "size_max-off-1", "size_max-off+1+bufend"
+    "size_max-off", "size_max-off+1", "size_max-off+2", "size_max-off-1", "size_max-off+1+bufend", "half-size"
 };
 static int boundvalue(int c, const struct view *v, unsigned salt, size_t *out)
 {
@@ -130,6 +130,7 @@ static int boundvalue(int c, const struct view *v, unsigned salt, size_t *out)
     case S_MAXOFF2: *out = SIZE_MAX - off + 2; break;
     case S_MAXOFFM1: *out = SIZE_MAX - off - 1; break;
     case S_WRAPREM: *out = SIZE_MAX - off + 1 + rem; break;
+    case S_HALF: *out = len / 2; break;          /* reshape cases only (not part of ALL_BOUNDS / pick_bound) */
     default: return 0;
     }
     return 1;
@@ -163,6 +164,11 @@ static int indexvalue(int c, const struct view *v, unsigned salt, size_t *out)
 }
 
 /* ---- counters by class (names built once per worker) ---- */
+/* byte counts of the reshape cases (see run_reshape) */
+static const size_t rs_bytes[] = { 240, 720, (size_t)1 << 16, (size_t)1 << 17, (size_t)1 << 18, (size_t)1 << 20 };
+static const char *const rs_bname[] = { "240", "720", "64k", "128k", "256k", "1m" };
+#define RS_NB 6
+static int c_rs[2][RS_NB];
 static int c_alloc_nm[N_NCLS], c_alloc_sz[5], c_set_sz[5], c_beg[S_NCLS], c_end[S_NCLS], c_idx[I_NCLS];
 static void init_counters(void)
 {
@@ -174,6 +180,10 @@ static void init_counters(void)
     for (i = 0; i < S_NCLS; i++) { snprintf(nm, sizeof(nm), "slice.beg.%s", sname[i]); c_beg[i] = vrt_counter_id(nm); }
     for (i = 0; i < S_NCLS; i++) { snprintf(nm, sizeof(nm), "slice.end.%s", sname[i]); c_end[i] = vrt_counter_id(nm); }
     for (i = 0; i < I_NCLS; i++) { snprintf(nm, sizeof(nm), "at.index.%s", iname[i]); c_idx[i] = vrt_counter_id(nm); }
+    for (i = 0; i < RS_NB; i++) {
+        snprintf(nm, sizeof(nm), "reshape.alloc.%s-bytes", rs_bname[i]); c_rs[0][i] = vrt_counter_id(nm);
+        snprintf(nm, sizeof(nm), "reshape.set.%s-bytes", rs_bname[i]); c_rs[1][i] = vrt_counter_id(nm);
+    }
 }
 
 /* ---- model helpers ---- */
@@ -353,6 +363,22 @@ static int call_at(int o, size_t i, int konst, void **out)
     return ab;
 }
 static unsigned fillctr;
+/*
+ * Views of more than 600 elements (reshape cases only; the closure and random workloads stay below 320) are audited at
+ * the first and last 8 indices, the two in the middle and ~40 evenly spread ones instead of everywhere.
+ */
+#define SPARSE_ABOVE 600
+static size_t next_index(size_t i, size_t len)
+{
+    const size_t stride = len / 41 + 1, mid = len / 2 - 1;
+    size_t n;
+    if (len <= SPARSE_ABOVE || i < 7 || i + 9 > len) return i + 1;
+    n = i + stride;
+    if (i < mid && n > mid) n = mid;            /* mid and mid + 1 are always visited */
+    else if (i == mid) n = mid + 1;
+    if (n > len - 8) n = len - 8;
+    return n;
+}
 
 static void must_abort_at(int o, size_t i, const char *cls)
 {
@@ -382,7 +408,7 @@ static void audit_obj(int o)
         const struct buf *b = &B[v->b];
         if (d != (void *)b->base)
             failk("array.data", "a%d: data() = %p, element area of its buffer is %p", o, d, (void *)b->base);
-        for (i = 0; i < len; i++) {
+        for (i = 0; i < len; i = next_index(i, len)) {
             void *p;
             char *want = b->base + (off + i) * b->sz;
             if (call_at(o, i, (int)((i ^ o) & 1), &p))
@@ -393,6 +419,7 @@ static void audit_obj(int o)
             memset(p, (int)(0x30 + (fillctr++ & 0x3f)), b->sz);       /* ASan sees a stale or short buffer */
         }
         VRT_COUNT_N("audit.elements-written", len);
+        if (len > SPARSE_ABOVE) VRT_COUNT("audit.object.sparse");
         if (b->nm - off > len) {
             /* inside the buffer but beyond the view */
             must_abort_at(o, b->nm - off - 1, "beyond-view-inside-buffer");
@@ -431,6 +458,9 @@ static void audit_all(void)
 }
 
 /* ---- state ---- */
+/* reshape cases: alloc/set with an explicit (nm, sz) instead of the classes of the op encoding */
+static int ov_on;
+static size_t ov_nm, ov_sz;
 static unsigned init_toggle;
 static void st_create(int scope)
 {
@@ -438,7 +468,7 @@ static void st_create(int scope)
     nobj = scope & 7; maxbuf = (scope >> 3) & 7;
     memset(B, 0, sizeof(B));
     memset(X, 0, sizeof(X));
-    ndying = 0; in_audit = 0;
+    ndying = 0; in_audit = 0; ov_on = 0;
     lastop = "none";
     for (o = 0; o < nobj; o++) {
         A[o] = vrt_alloc(sizeof(cstl_array_t));
@@ -491,6 +521,7 @@ static int st_apply(uint32_t op, int audit_arg)
         if (szc >= 5 || c1 >= N_NCLS || fail > 2) return 0;
         if (isset && (c1 > N_MID || setmode > 2)) return 0;
         sz = szval[szc]; nm = nmvalue(c1, sz, salt);
+        if (ov_on) { sz = ov_sz; nm = ov_nm; }
         if (setmode == 1) {
             const struct buf *w;
             if (s >= nobj || V[s].b < 0) return 0;
@@ -536,7 +567,7 @@ static int st_apply(uint32_t op, int audit_arg)
         }
         retarget(a, -1, 0, 0);          /* the previous reference is dropped in every outcome */
         if (isset) {
-            vrt_ctr[c_set_sz[szc]]++;
+            if (!ov_on) vrt_ctr[c_set_sz[szc]]++;
             VRT_COUNT("op.set");
             if (nm == 0) VRT_COUNT("set.nm-zero");
             /* a wrapper around NULL shows size 0 / data NULL like an empty object: told apart by the blocks that stayed */
@@ -564,8 +595,7 @@ static int st_apply(uint32_t op, int audit_arg)
         } else {
             const int toobig = prod > (u128)vrt_alloc_cap;
             const char *cls = prod > (u128)SIZE_MAX ? "unrepresentable" : prod > (u128)(SIZE_MAX - 4096) ? "header-unrepresentable" : "over-cap";
-            vrt_ctr[c_alloc_nm[c1]]++;
-            vrt_ctr[c_alloc_sz[szc]]++;
+            if (!ov_on) { vrt_ctr[c_alloc_nm[c1]]++; vrt_ctr[c_alloc_sz[szc]]++; }
             VRT_COUNT("op.alloc");
             if (nm == 0) VRT_COUNT("alloc.nm-zero");
             if (toobig) {
@@ -893,7 +923,7 @@ struct cscope {
 };
 #define M(x) (1u << (x))
 #define HUGE_NM (M(N_2P63) | M(N_MAX) | M(N_MAXDIV1) | M(N_MAXDIV) | M(N_HDRFIT1) | M(N_CAP1))
-#define ALL_BOUNDS ((1u << S_NCLS) - 1 - M(S_IN))
+#define ALL_BOUNDS ((1u << S_NCLS) - 1 - M(S_IN) - M(S_HALF))
 #define BEG_CORE (M(S_0) | M(S_1) | M(S_LEN) | M(S_MAXM1) | M(S_MAXOFF1))
 static const struct cscope quick_scopes[] = {
     /* two objects, every end class against the core begin classes, unsatisfiable allocs, failpoints: to closure */
@@ -1059,17 +1089,544 @@ static void run_random(uint64_t idx)
     VRT_COUNT("random.histories");
 }
 
+
+/* ---- re-allocation of an occupied object with related shapes, small and large ----
+ *
+ * a0 is allocated / set again and again with shapes that are related to the one it has: the same byte count with another
+ * element size, count and size exchanged, a few elements fewer / more, the very same (nm, sz) again; at byte counts of a few
+ * hundred bytes and at 64 KiB, 128 KiB, 256 KiB and 1 MiB; as the sole owner or while a1 / a2 co-own the previous buffers
+ * through offset views; library buffers, external buffers (a fresh block each time, or a second wrapper of another geometry
+ * over the block a0 already wraps) or both in turns.  Every call goes through st_apply(): the reference model, the lifetime
+ * accounting and the full audit (new stride at the first / middle / last indices, at(size) aborts, old views keep their old
+ * buffer) apply unchanged; rs_probe() adds the slice bounds by the new count and unslice.
+ */
+static const unsigned rs_elem[] = { 1, 2, 3, 4, 5, 6, 8, 12, 16, 24, 30, 48, 64, 120, 240, 256, 1024, 4096, 65536 };
+static int rs_T;
+
+static size_t rs_pick_elem(vrt_rng *g, size_t T, size_t not1, size_t not2)
+{
+    size_t cand[32];
+    unsigned n = 0, i;
+    for (i = 0; i < sizeof(rs_elem) / sizeof(rs_elem[0]); i++) {
+        const size_t e = rs_elem[i];
+        if (e <= T && T % e == 0 && e != not1 && e != not2) cand[n++] = e;
+    }
+    VRT_CHECK(n > 0, "harness.array.reshape-no-element-size", "no element size divides %zu", T);
+    return cand[vrt_below(g, n)];
+}
+static void rs_must(uint32_t op)
+{
+    if (!st_apply(op, 1)) vrt_fail("harness.array.reshape-op-not-applicable", "op 0x%x (kind %d) was not applicable", (unsigned)op, (int)OP_KIND(op));
+}
+/* slice bounds by the (new) element count, unslice; a3 is the probe object and is empty again afterwards */
+static void rs_probe(void)
+{
+    if (V[0].b < 0) { VRT_COUNT("reshape.left-empty"); return; }
+    if (V[0].off == 0 && V[0].len == B[V[0].b].nm) {
+        rs_must(OP(K_SLICE, 0, 3, S_0, S_REM1, 0, 0, 0));          /* [0, nm+1): abort */
+        rs_must(OP(K_SLICE, 0, 3, S_REM, S_REM1, 0, 0, 0));        /* [nm, nm+1): abort */
+        rs_must(OP(K_SLICE, 0, 3, S_REMM1, S_REM, 0, 0, 0));       /* the last element */
+        rs_must(OP(K_SLICE, 3, 3, S_0, S_2, 0, 0, 0));             /* from there [0, 2), in place: abort */
+        rs_must(OP(K_SLICE, 3, 3, S_1, S_1, 0, 0, 0));             /* [1, 1): the empty view at the very end */
+        rs_must(OP(K_UNSLICE, 3, 3, 0, 0, 0, 0, 0));               /* in place: everything again */
+        rs_must(OP(K_SLICE, 0, 3, S_HALF, S_REM, 0, 0, 0));        /* upper half */
+        rs_must(OP(K_SLICE, 3, 3, S_0, S_LEN1, 0, 0, 0));          /* one more than there is: abort */
+        VRT_COUNT("reshape.probed.full-view");
+    } else {
+        rs_must(OP(K_SLICE, 0, 3, S_0, S_REM1, 0, 0, 0));          /* one past the buffer, from an offset view: abort */
+        rs_must(OP(K_SLICE, 0, 3, S_0, S_REM, 0, 0, 0));           /* up to the end of the buffer */
+        rs_must(OP(K_UNSLICE, 0, 3, 0, 0, 0, 0, 0));
+        VRT_COUNT("reshape.probed.offset-view");
+    }
+    rs_must(OP(K_RESET, 3, 0, 0, 0, 0, 0, 0));
+}
+/* give a0 the shape (nm, sz); how: 0 alloc, 1 set on a fresh block, 2 set as a second wrapper over the block a0 wraps */
+static void rs_shape(int how, size_t nm, size_t sz)
+{
+    const int old = V[0].b;
+    const int shared = old >= 0 && refs(old) > 1, offs = old >= 0 && V[0].off > 0;
+    const size_t obytes = old >= 0 ? B[old].nm * B[old].sz : 0, onm = old >= 0 ? B[old].nm : 0, osz = old >= 0 ? B[old].sz : 0;
+    const int oext = old >= 0 && B[old].external;
+    if (how == 2 && !(old >= 0 && B[old].external && B[old].x >= 0)) how = 1;
+    ov_on = 1; ov_nm = nm; ov_sz = sz;
+    rs_must(how == 0 ? OP(K_ALLOC, 0, 0, N_MID, 0, 0, 0, 0) : OP(K_SET, 0, 0, N_MID, how == 2 ? 1 : 0, 0, 0, 0));
+    ov_on = 0;
+    if (V[0].b >= 0) {
+        const size_t bytes = nm * sz;
+        vrt_ctr[c_rs[how != 0][rs_T]]++;
+        if (old >= 0) {
+            if (shared) VRT_COUNT("reshape.onto-coowned"); else VRT_COUNT("reshape.onto-sole-owner");
+            if (offs) VRT_COUNT("reshape.onto-offset-view");
+            if (oext != (how != 0)) VRT_COUNT("reshape.library-external-switch");
+            if (bytes == obytes && nm == onm && sz == osz) {
+                VRT_COUNT("reshape.same-shape-again");
+                if (bytes >= ((size_t)1 << 17) && !shared) VRT_COUNT("reshape.same-shape-again.sole-owner.128k-or-more");
+            } else if (bytes == obytes) {
+                VRT_COUNT("reshape.same-bytes.other-elem-size");
+                if (nm == osz && sz == onm) VRT_COUNT("reshape.same-bytes.count-and-size-exchanged");
+                if (bytes >= ((size_t)1 << 17)) {
+                    if (shared) VRT_COUNT("reshape.same-bytes.other-elem-size.coowned.128k-or-more");
+                    else VRT_COUNT("reshape.same-bytes.other-elem-size.sole-owner.128k-or-more");
+                }
+                if (how == 2) VRT_COUNT("reshape.same-bytes.rewrapped-own-block");
+            } else if (bytes < obytes) VRT_COUNT("reshape.slightly-smaller");
+            else VRT_COUNT("reshape.slightly-larger");
+        }
+        if (st_nontrivial()) vrt_sig(0, st_sig());
+    }
+    rs_probe();
+}
+static void run_reshape(uint64_t k)
+{
+    vrt_rng g;
+    const int Ti = (int)(k % RS_NB), kind = (int)(k / RS_NB % 3), co = (int)(k / (RS_NB * 3) % 2);
+    const size_t T = rs_bytes[Ti];
+    size_t s1, s2, s3, n, s, d;
+    int step = 0;
+#define HOW (kind == 0 ? 0 : kind == 1 ? 1 : (step & 1))
+    /* before the next re-allocation: a co-owner takes an offset view of what a0 has now; a0 itself is an offset view every other time */
+#define PRE() do { \
+        if (co && V[0].b >= 0) rs_must(OP(K_SLICE, 0, 1 + (step & 1), (step & 2) ? S_1 : S_HALF, S_REM, 0, 0, 0)); \
+        if ((step & 1) && V[0].b >= 0) { rs_must(OP(K_SLICE, 0, 0, S_1, S_LEN, 0, 0, 0)); rs_probe(); } \
+        step++; } while (0)
+    vrt_rng_seed(&g, vrt_seed, 0xC14A00 + k);
+    s1 = rs_pick_elem(&g, T, 0, 0); s2 = rs_pick_elem(&g, T, s1, 0); s3 = rs_pick_elem(&g, T, s1, s2);
+    vrt_case_note("reshape bytes=%s kind=%s coowner=%d elem=%zu,%zu,%zu", rs_bname[Ti],
+                  kind == 0 ? "alloc" : kind == 1 ? "set" : "alloc/set", co, s1, s2, s3);
+    rs_T = Ti;
+    st_create(SCOPE(4, 4));
+    rs_shape(HOW, T / s1, s1); PRE();
+    rs_shape(HOW, T / s2, s2); PRE();                   /* same bytes, other element size */
+    n = T / s2; s = s2;
+    rs_shape(HOW, n, s); PRE();                         /* the same shape again */
+    d = 1 + vrt_below(&g, 3);
+    if (vrt_chance(&g, 1, 2)) d = (24 + 8 * vrt_below(&g, 2) + s - 1) / s;      /* about the size of the descriptor */
+    if (d >= n) d = n - 1;
+    rs_shape(HOW, n - d, s); PRE();                     /* slightly smaller */
+    rs_shape(HOW, n + d, s); PRE();                     /* slightly larger than the original */
+    rs_shape(HOW, T / s3, s3); PRE();                   /* the original byte count again, third element size */
+    n = T / s3; s = s3;
+    if (n != s) { rs_shape(HOW, s, n); PRE(); { const size_t t = n; n = s; s = t; } }     /* count and size exchanged */
+    if (kind != 0) {
+        /* external: same block, other geometry, through a second wrapper (the first one goes or stays with its co-owners) */
+        if (V[0].b >= 0 && V[0].off > 0) rs_must(OP(K_UNSLICE, 0, 0, 0, 0, 0, 0, 0));
+        if (kind == 2 && (V[0].b < 0 || !B[V[0].b].external)) { rs_shape(1, n, s); step++; }
+        rs_shape(2, T / s1, s1); PRE();
+        n = T / s1; s = s1;
+    }
+    rs_shape(HOW, n, s); PRE();                         /* the same shape again (a0 possibly an offset view, possibly co-owned) */
+    step |= 1;
+    rs_shape(HOW, n, s);                                /* and again, sole owner of a full view when !co */
+    rs_shape(HOW, T / s2, s2);
+    /* the end: co-owners first or last */
+    if (vrt_chance(&g, 1, 2)) { rs_must(OP(K_RELEASE, 0, 0, 0, 0, 0, 0, 0)); rs_must(OP(K_RESET, 0, 0, 0, 0, 0, 0, 0)); }
+    rs_must(OP(K_RESET, 1, 0, 0, 0, 0, 0, 0));
+    rs_must(OP(K_RELEASE, 2, 0, 1, 0, 0, 0, 0));
+    rs_must(OP(K_RELEASE, 0, 0, 0, 0, 0, 0, 0));
+    audit_all();
+    st_destroy();
+    VRT_COUNT("reshape.histories");
+#undef HOW
+#undef PRE
+}
+
+/* ---- very many views of one buffer ----
+ *
+ * One library or external buffer, one root object and N - 1 further objects that become views of it (slices of the root,
+ * of the previous view, of any earlier view, also beyond the source view inside the buffer; unslice).  Own, flat model
+ * (offset / length per object, number of referrers); the objects live in one harness block and are initialised in place.
+ * After EVERY call: the allocator events (no block of the buffer may be freed while a referrer is left) and the size of the
+ * object written.  At the referrer counts around 2^8, 2^16, 2^17 and 2^18, on the way up and on the way down (the order in
+ * which the views go is first-in-first-out - the root goes first -, last-in-first-out or scattered): the blocks are live,
+ * some views are audited (data, addresses of first / middle / last element, writes, at(size) and at(SIZE_MAX) abort), and
+ * release() on the root, on the newest and on some other view reports NULL, causes no allocator traffic and changes
+ * nothing.  The last referrer: release hands an external buffer back (or reset lets it go), every block of the buffer is
+ * freed exactly once by that call and nothing stays allocated.
+ */
+static struct {
+    cstl_array_t *W;
+    uint8_t *off, *len, *live;
+    size_t N, nm, sz, refs;
+    char *base, *xb;
+    int external;
+    void *blk[MAXBLK];
+    int nblk;
+} mv;
+
+static const char *mv_cls(void)
+{
+    return mv.refs <= 1 ? "sole" : mv.refs <= 256 ? "le-2p8-referrers" : mv.refs <= 65536 ? "le-2p16-referrers" : "gt-2p16-referrers";
+}
+static void mv_fail(const char *key, const char *fmt, ...) __attribute__((format(printf, 2, 3), noreturn));
+static void mv_fail(const char *key, const char *fmt, ...)
+{
+    char k[160], m[400];
+    va_list ap;
+    va_start(ap, fmt);
+    vsnprintf(m, sizeof(m), fmt, ap);
+    va_end(ap);
+    snprintf(k, sizeof(k), "%s.many-views.%s", key, mv_cls());
+    vrt_fail(k, "%s (%s buffer of %zu elements of %zu bytes, %zu referrer(s))", m, mv.external ? "external" : "library", mv.nm, mv.sz, mv.refs);
+}
+static int mv_checkpoint(size_t c)
+{
+    return c <= 3 || (c >= 254 && c <= 258) || (c >= 65534 && c <= 65538) || (c >= 131071 && c <= 131073)
+           || (c >= 262143 && c <= 262145) || c + 1 >= mv.N;
+}
+/* allocator events of the call just made; last = the call took the last referrer away */
+static void mv_events(const char *what, int last)
+{
+    const int n = vrt_ev_n();
+    void *nb[8];
+    int nnb = 0, i, j, freed = 0;
+    if (n == 0 && !last) {
+        if (vrt_lib_live() != (size_t)mv.nblk)
+            mv_fail("array.lifetime.live-block-count", "%zu live library blocks after %s, the buffer has %d", vrt_lib_live(), what, mv.nblk);
+        return;
+    }
+    VRT_CHECK(n <= VRT_EV_MAX, "harness.array.event-log-overflow", "%d allocator events in one call", n);
+    for (i = 0; i < n; i++) {
+        const struct vrt_aev *e = vrt_ev(i);
+        void *fp = NULL, *ap = NULL;
+        if (e->kind == 'f') fp = e->p;
+        else if (e->failed) continue;
+        else if (e->kind == 'r') { fp = e->p; ap = e->q; }
+        else ap = e->p;
+        if (fp != NULL) {
+            int found = 0;
+            for (j = 0; j < nnb && !found; j++) if (nb[j] == fp) { nb[j] = nb[--nnb]; found = 1; }
+            for (j = 0; j < mv.nblk && !found; j++) if (mv.blk[j] == fp) {
+                found = 1;
+                if (!last) mv_fail("array.lifetime.freed-while-referenced", "%s freed block %d of the buffer", what, j);
+                if (freed >> j & 1) mv_fail("array.lifetime.freed-twice", "%s freed block %d of the buffer twice", what, j);
+                freed |= 1 << j;
+            }
+            if (!found) mv_fail("array.lifetime.unexpected-free", "%s freed %p which is no block of the buffer", what, fp);
+        }
+        if (ap != NULL) {
+            VRT_CHECK(nnb < 8, "harness.array.too-many-new-blocks", "more than 8 blocks allocated in one call");
+            nb[nnb++] = ap;
+        }
+    }
+    if (nnb != 0) mv_fail("array.lifetime.stray-allocation", "%s left %d library block(s) allocated", what, nnb);
+    if (last) {
+        if (freed != (1 << mv.nblk) - 1)
+            mv_fail("array.lifetime.not-released", "%s took the last reference away but %d of the %d block(s) of the buffer stayed allocated",
+                    what, mv.nblk - __builtin_popcount((unsigned)freed), mv.nblk);
+        if (vrt_lib_live() != 0) mv_fail("array.lifetime.leak-at-end", "%zu library block(s) live after the last view went", vrt_lib_live());
+    }
+}
+static void mv_blocks_live(void)
+{
+    int j;
+    for (j = 0; j < mv.nblk; j++)
+        if (vrt_lib_block(mv.blk[j], NULL) != mv.blk[j]) mv_fail("array.lifetime.block-gone", "block %d of the buffer is no longer live", j);
+    if (vrt_lib_live() != (size_t)mv.nblk)
+        mv_fail("array.lifetime.live-block-count", "%zu live library blocks, the buffer has %d", vrt_lib_live(), mv.nblk);
+}
+static int mv_call_at(size_t k, size_t i, int konst, void **out)
+{
+    void *volatile p = NULL;
+    int ab;
+    if (konst) ab = VRT_ABORTS(p = (void *)cstl_array_at_const(&mv.W[k], i));
+    else ab = VRT_ABORTS(p = cstl_array_at(&mv.W[k], i));
+    *out = p;
+    return ab;
+}
+static void mv_at_aborts(size_t k, size_t i, const char *cls)
+{
+    void *p;
+    char key[96];
+    VRT_OP2("array.at", "view %ld [%lu] (must abort)", k, i);
+    VRT_COUNT("abort.expected.at");
+    if (mv_call_at(k, i, (int)(i & 1), &p)) { VRT_COUNT("abort.observed.at"); return; }
+    snprintf(key, sizeof(key), "array.at.no-abort.%s", cls);
+    mv_fail(key, "at(view %zu, %zu) returned %p instead of aborting", k, i, p);
+}
+static void mv_audit_view(size_t k)
+{
+    cstl_array_t *a = &mv.W[k];
+    const size_t len = mv.live[k] ? mv.len[k] : 0, off = mv.live[k] ? mv.off[k] : 0;
+    const void *d;
+    size_t t;
+    VRT_OP1("array.size", "view %ld", k);
+    if (cstl_array_size(a) != len) mv_fail("array.size", "view %zu: size %zu, model %zu", k, cstl_array_size(a), len);
+    VRT_OP1("array.data", "view %ld", k);
+    d = (k & 1) ? cstl_array_data_const(a) : cstl_array_data(a);
+    if (d != (void *)(mv.live[k] ? mv.base : NULL)) mv_fail("array.data", "view %zu: data() = %p, expected %p", k, d, (void *)(mv.live[k] ? mv.base : NULL));
+    for (t = 0; t < 3 && len > 0; t++) {
+        const size_t i = t == 0 ? 0 : t == 1 ? len / 2 : len - 1;
+        void *p;
+        VRT_OP2("array.at", "view %ld [%lu]", k, i);
+        if (mv_call_at(k, i, (int)(t & 1), &p))
+            mv_fail("array.at.abort-in-range", "at(view %zu, %zu) aborted, size is %zu (off %zu)", k, i, len, off);
+        if (p != (void *)(mv.base + (off + i) * mv.sz))
+            mv_fail("array.at.address", "at(view %zu, %zu) = %p, expected base %p + (%zu+%zu)*%zu", k, i, p, (void *)mv.base, off, i, mv.sz);
+        memset(p, (int)(0x30 + (fillctr++ & 0x3f)), mv.sz);
+    }
+    mv_at_aborts(k, len, "index-eq-size");
+    mv_at_aborts(k, SIZE_MAX, "index-size-max");
+    if (off > 0) mv_at_aborts(k, SIZE_MAX - off + 1, "index-wraps-to-zero");
+    VRT_COUNT("manyviews.view-audited");
+}
+/* release() that must be refused: NULL, no allocator traffic, nothing changed */
+static void mv_release_refused(size_t k, int withnull)
+{
+    void *out = SENT;
+    vrt_state(mv_cls());
+    VRT_OP2("array.release", "view %ld out=%ld (must be refused)", k, !withnull);
+    vrt_ev_begin();
+    cstl_array_release(&mv.W[k], withnull ? NULL : &out);
+    if (!withnull && out != NULL)
+        mv_fail(!mv.live[k] ? "array.release.returned-while-empty" : !mv.external ? "array.release.returned-while-internal" : "array.release.returned-while-shared",
+                "release(view %zu) returned %p (buffer %p)", k, out, (void *)mv.base);
+    mv_events("a refused release", 0);
+    mv_audit_view(k);
+    if (!mv.live[k]) VRT_COUNT("manyviews.release.refused.empty-object");
+    else if (mv.external) VRT_COUNT("manyviews.release.refused.external-shared"); else VRT_COUNT("manyviews.release.refused.internal");
+}
+static void mv_count_checkpoint(int down)
+{
+    const size_t c = mv.refs;
+    const char *nm = NULL;
+    switch (c) {
+    case 255: nm = down ? "manyviews.down.referrers-255" : "manyviews.up.referrers-255"; break;
+    case 256: nm = down ? "manyviews.down.referrers-256" : "manyviews.up.referrers-256"; break;
+    case 257: nm = down ? "manyviews.down.referrers-257" : "manyviews.up.referrers-257"; break;
+    case 65535: nm = down ? "manyviews.down.referrers-65535" : "manyviews.up.referrers-65535"; break;
+    case 65536: nm = down ? "manyviews.down.referrers-65536" : "manyviews.up.referrers-65536"; break;
+    case 65537: nm = down ? "manyviews.down.referrers-65537" : "manyviews.up.referrers-65537"; break;
+    case 131073: nm = down ? "manyviews.down.referrers-131073" : "manyviews.up.referrers-131073"; break;
+    case 262145: nm = down ? "manyviews.down.referrers-262145" : "manyviews.up.referrers-262145"; break;
+    default: break;
+    }
+    if (nm != NULL) vrt_count_dyn(nm, 1);
+    if (mv.external) VRT_COUNT("manyviews.checkpoint.external"); else VRT_COUNT("manyviews.checkpoint.library");
+}
+/* object k becomes a view of what object src refers to: slice [beg, end) or (unsl) unslice */
+static void mv_view(size_t src, size_t k, size_t beg, size_t end, int unsl)
+{
+    volatile int ab;
+    const int was = mv.live[k];
+    vrt_ev_begin();
+    if (unsl) {
+        VRT_OP2("array.unslice", "view %ld -> view %ld", src, k);
+        ab = VRT_ABORTS(cstl_array_unslice(&mv.W[src], &mv.W[k]));
+        if (ab) mv_fail("array.unslice.abort", "unslice(view %zu, view %zu) aborted on a non-empty source", src, k);
+        mv.off[k] = 0; mv.len[k] = (uint8_t)mv.nm;
+        VRT_COUNT("op.unslice");
+    } else {
+        VRT_OP4("array.slice", "view %ld [%lu,%lu) -> view %ld", src, beg, end, k);
+        ab = VRT_ABORTS(cstl_array_slice(&mv.W[src], beg, end, &mv.W[k]));
+        if (ab) mv_fail(end > mv.len[src] ? "array.slice.abort-on-legal.beyond-view-inside-buffer" : "array.slice.abort-on-legal.within-view",
+                        "slice(view %zu, %zu, %zu) aborted: off %u + end <= nm", src, beg, end, (unsigned)mv.off[src]);
+        if (end > mv.len[src]) VRT_COUNT("manyviews.slice.beyond-view-inside-buffer");
+        mv.off[k] = (uint8_t)(mv.off[src] + beg); mv.len[k] = (uint8_t)(end - beg);
+        VRT_COUNT("op.slice");
+    }
+    if (!was) { mv.live[k] = 1; mv.refs++; }
+    mv_events(unsl ? "unslice" : "slice", 0);
+    if (cstl_array_size(&mv.W[k]) != mv.len[k]) mv_fail("array.size", "view %zu: size %zu after the call, model %u", k, cstl_array_size(&mv.W[k]), (unsigned)mv.len[k]);
+}
+static void mv_reset(size_t k)
+{
+    const int last = mv.live[k] && mv.refs == 1;
+    vrt_state(mv_cls());
+    VRT_OP1("array.reset", "view %ld", k);
+    VRT_COUNT("op.reset");
+    vrt_ev_begin();
+    cstl_array_reset(&mv.W[k]);
+    if (mv.live[k] && !last) { mv.live[k] = 0; mv.refs--; }     /* the class in a key is that of the referrers left */
+    mv_events("reset", last);
+    if (last) { mv.live[k] = 0; mv.refs = 0; }
+    if (cstl_array_size(&mv.W[k]) != 0) mv_fail("array.size", "view %zu: size %zu after reset", k, cstl_array_size(&mv.W[k]));
+}
+static size_t mv_gcd(size_t a, size_t b) { while (b) { const size_t t = a % b; a = b; b = t; } return a; }
+
+static void run_manyviews(uint64_t kcase)
+{
+    vrt_rng g;
+    size_t k, j, start, step;
+    int n, i, order;
+    vrt_rng_seed(&g, vrt_seed, 0xC14B00 + kcase);
+    memset(&mv, 0, sizeof(mv));
+    mv.external = (int)(kcase & 1);
+    order = (int)(kcase / 2 % 3);
+    mv.N = vrt_thorough ? 300000 : 70000;
+    mv.nm = 2 + vrt_below(&g, 200);
+    mv.sz = szval[vrt_below(&g, 5)];
+    vrt_case_note("many views: %zu objects, %s buffer nm=%zu sz=%zu, order %s", mv.N, mv.external ? "external" : "library", mv.nm, mv.sz,
+                  order == 0 ? "fifo" : order == 1 ? "lifo" : "scattered");
+    mv.W = vrt_alloc(mv.N * sizeof(cstl_array_t));
+    memset(mv.W, 0x7b, mv.N * sizeof(cstl_array_t));
+    mv.off = vrt_zalloc(mv.N); mv.len = vrt_zalloc(mv.N); mv.live = vrt_zalloc(mv.N);
+    for (k = 0; k < mv.N; k++) {
+        if ((k ^ kcase) & 1) cstl_array_init(&mv.W[k]);
+        else mv.W[k] = (cstl_array_t)CSTL_ARRAY_INITIALIZER(mv.W[k]);
+    }
+    VRT_CHECK(vrt_lib_live() == 0, "harness.array.library-blocks-before-case", "%zu library blocks live at the start", vrt_lib_live());
+
+    /* the root */
+    vrt_state("empty");
+    vrt_ev_begin();
+    if (mv.external) {
+        mv.xb = vrt_alloc(mv.nm * mv.sz);
+        memset(mv.xb, 0xee, mv.nm * mv.sz);
+        VRT_OP2("array.set", "root ext nm=%lu sz=%ld", mv.nm, mv.sz);
+        cstl_array_set(&mv.W[0], mv.xb, mv.nm, mv.sz);
+        VRT_COUNT("op.set");
+    } else {
+        VRT_OP2("array.alloc", "root nm=%lu sz=%ld", mv.nm, mv.sz);
+        cstl_array_alloc(&mv.W[0], mv.nm, mv.sz);
+        VRT_COUNT("op.alloc");
+    }
+    n = vrt_ev_n();
+    for (i = 0; i < n && i < VRT_EV_MAX; i++) {
+        const struct vrt_aev *e = vrt_ev(i);
+        if (e->kind == 'f') {
+            for (j = 0; j < (size_t)mv.nblk; j++) if (mv.blk[j] == e->p) mv.blk[j] = mv.blk[--mv.nblk];
+        } else if (!e->failed && e->kind != 'r') {
+            VRT_CHECK(mv.nblk < MAXBLK, "harness.array.too-many-blocks-per-buffer", "more than %d blocks back one buffer", MAXBLK);
+            mv.blk[mv.nblk++] = e->p;
+        }
+    }
+    if (cstl_array_size(&mv.W[0]) == 0 && cstl_array_data(&mv.W[0]) == NULL) {
+        /* tolerated by the statement (see alloc.empty-without-failure); nothing to observe then */
+        VRT_COUNT("manyviews.root-left-empty");
+        VRT_CHECK(vrt_lib_live() == 0, "array.lifetime.stray-allocation", "empty object but %zu library block(s) live", vrt_lib_live());
+        goto out;
+    }
+    mv.base = cstl_array_data(&mv.W[0]);
+    mv.live[0] = 1; mv.off[0] = 0; mv.len[0] = (uint8_t)mv.nm; mv.refs = 1;
+    if (mv.external ? mv.base != mv.xb : mv.base == NULL) mv_fail("array.data", "root: data() = %p", (void *)mv.base);
+    if (mv.nblk < 1) mv_fail("array.lifetime.no-backing-block", "a new buffer but no library block came into being");
+    if (!mv.external) {
+        size_t rs = 0;
+        char *blk = vrt_lib_block(mv.base, &rs);
+        if (blk == NULL || (size_t)(mv.base - blk) + mv.nm * mv.sz > rs)
+            mv_fail("array.alloc.block-too-small", "element area %p is not inside a live library block of sufficient size", (void *)mv.base);
+    }
+    mv_blocks_live();
+    mv_audit_view(0);
+
+    /* up */
+    vrt_state("growing");
+    for (k = 1; k < mv.N; k++) {
+        const unsigned r = vrt_below(&g, 8);
+        size_t src = r < 4 ? k - 1 : r == 4 ? 0 : vrt_below(&g, (uint32_t)k), rem, beg, end;
+        rem = mv.nm - mv.off[src];
+        if (r == 7 || rem < 2) mv_view(src, k, 0, 0, 1);
+        else {
+            beg = vrt_chance(&g, 1, 2) ? 0 : vrt_below(&g, (uint32_t)(rem + 1)) / 4;
+            end = vrt_chance(&g, 1, 3) ? rem : beg + vrt_below(&g, (uint32_t)(rem - beg + 1));
+            mv_view(src, k, beg, end, 0);
+        }
+        if (mv_checkpoint(mv.refs)) {
+            const size_t other = vrt_below(&g, (uint32_t)k);
+            vrt_state(mv_cls());
+            mv_count_checkpoint(0);
+            mv_blocks_live();
+            mv_audit_view(0); mv_audit_view(k); mv_audit_view(other);
+            mv_release_refused(k, 0);
+            mv_release_refused(0, (int)(k & 1));
+            mv_release_refused(other, 0);
+            /* back and forth across the count */
+            mv_reset(k);
+            mv_release_refused(k, 0);           /* an empty object */
+            if (mv.refs > 1) mv_release_refused(0, 0);
+            mv_view(other, k, 0, mv.nm - mv.off[other], 0);
+            mv_release_refused(k, 0);
+            VRT_COUNT("manyviews.checkpoint.up");
+            vrt_state("growing");
+        }
+    }
+    VRT_MAX("max.manyviews.referrers", mv.refs);
+    if (mv.refs > 65537) VRT_COUNT("manyviews.more-than-65537-referrers");
+    vrt_sig(0, vrt_mix(vrt_mix(vrt_mix(0xC14B, mv.nm), mv.sz), (uint64_t)(mv.external * 4 + order)));
+
+    /* down: order[j] = (start + j * step) mod N */
+    if (order == 0) { start = 0; step = 1; }
+    else if (order == 1) { start = mv.N - 1; step = mv.N - 1; }
+    else { start = vrt_below(&g, (uint32_t)mv.N); step = 1 + vrt_below(&g, (uint32_t)mv.N - 1); while (mv_gcd(step, mv.N) != 1) step++; }
+    vrt_state("shrinking");
+    for (j = 0; j + 1 < mv.N; j++) {
+        k = (start + j * step) % mv.N;
+        mv_reset(k);
+        if (mv_checkpoint(mv.refs)) {
+            const size_t nxt = (start + (j + 1) * step) % mv.N, lastk = (start + (mv.N - 1) * step) % mv.N;
+            const size_t midk = (start + (j + 1 + (mv.N - 1 - j) / 2) * step) % mv.N;
+            vrt_state(mv_cls());
+            mv_count_checkpoint(1);
+            mv_blocks_live();
+            mv_audit_view(nxt); mv_audit_view(lastk); mv_audit_view(midk); mv_audit_view(k);
+            if (mv.refs > 1) {
+                mv_release_refused(nxt, 0);
+                mv_release_refused(lastk, (int)(j & 1));
+                if (midk != lastk) mv_release_refused(midk, 0);
+            }
+            mv_release_refused(k, 0);           /* already empty */
+            VRT_COUNT("manyviews.checkpoint.down");
+            vrt_state("shrinking");
+        }
+    }
+    /* the sole remaining user */
+    k = (start + (mv.N - 1) * step) % mv.N;
+    VRT_CHECK(mv.refs == 1 && mv.live[k], "harness.array.manyviews-model", "refs %zu at the end", mv.refs);
+    vrt_state("sole");
+    mv_blocks_live();
+    mv_audit_view(k);
+    if (k == 0) VRT_COUNT("manyviews.last-referrer.root"); else VRT_COUNT("manyviews.last-referrer.view");
+    if (mv.external && kcase / 2 % 4 != 2) {
+        void *out = SENT;
+        const int withnull = (int)vrt_below(&g, 4) == 0;
+        VRT_OP2("array.release", "view %ld out=%ld (sole remaining user)", k, !withnull);
+        VRT_COUNT("op.release");
+        vrt_ev_begin();
+        cstl_array_release(&mv.W[k], withnull ? NULL : &out);
+        if (!withnull) {
+            if (out == NULL) mv_fail("array.release.sole-user-refused", "release(view %zu) reported NULL although it is the only user left", k);
+            if (out != (void *)mv.xb) mv_fail("array.release.wrong-pointer", "release(view %zu) returned %p, the buffer given to set was %p", k, out, (void *)mv.xb);
+        }
+        if (cstl_array_size(&mv.W[k]) != 0 || cstl_array_data(&mv.W[k]) != NULL)
+            mv_fail("array.release.object-not-empty", "view %zu still reports size %zu data %p after handing its buffer back",
+                    k, cstl_array_size(&mv.W[k]), cstl_array_data(&mv.W[k]));
+        mv.live[k] = 0;
+        mv_events("release by the sole remaining user", 1);
+        mv.refs = 0;
+        VRT_COUNT("manyviews.release.returned-buffer-to-last-of-many");
+    } else {
+        if (!mv.external) mv_release_refused(k, 0);
+        mv_reset(k);
+        if (mv.external) VRT_COUNT("manyviews.reset.last-of-many.external"); else VRT_COUNT("manyviews.reset.last-of-many.library");
+    }
+    VRT_COUNT("manyviews.freed-exactly-once-at-the-end");
+    mv_audit_view(k);
+    mv_audit_view(0);
+out:
+    if (mv.xb != NULL) { memset(mv.xb, 0xa5, mv.nm * mv.sz); vrt_free(mv.xb); }
+    vrt_free(mv.W); vrt_free(mv.off); vrt_free(mv.len); vrt_free(mv.live);
+    memset(&mv, 0, sizeof(mv));
+    VRT_COUNT("manyviews.histories");
+}
+
 static uint64_t nrandom(void) { return vrt_thorough ? 40000 : 5000; }
+/* cases: closure scopes, many-views (the longest single cases: started first), reshape, random histories */
+static uint64_t nmanyviews(void) { return vrt_thorough ? 12 : 6; }
+static uint64_t nreshape(void) { return (uint64_t)RS_NB * 3 * 2 * (vrt_thorough ? 4 : 1); }
 static uint64_t ncases(void)
 {
     if (vrt_thorough) { scopes = thorough_scopes; nscopes = sizeof(thorough_scopes) / sizeof(scopes[0]); }
     else { scopes = quick_scopes; nscopes = sizeof(quick_scopes) / sizeof(scopes[0]); }
-    return nscopes + nrandom();
+    return nscopes + nmanyviews() + nreshape() + nrandom();
 }
 static void run_case(uint64_t idx)
 {
-    if (idx < (uint64_t)nscopes) run_closure((int)idx);
-    else run_random(idx - nscopes);
+    if (idx < (uint64_t)nscopes) { run_closure((int)idx); return; }
+    idx -= nscopes;
+    if (idx < nmanyviews()) { run_manyviews(idx); return; }
+    idx -= nmanyviews();
+    if (idx < nreshape()) { run_reshape(idx); return; }
+    run_random(idx - nreshape());
 }
 static void winit(void)
 {
@@ -1094,7 +1651,25 @@ static const char *const required[] = {
     "release.null.external-shared",
     "buffer.internal.died", "buffer.external.died",
     "abort.observed.at", "abort.observed.slice", "audit.elements-written", "audit.at.beyond-view-inside-buffer",
-    "closure.states", "random.histories", NULL
+    "closure.states", "random.histories",
+    /* re-allocation with related shapes, small and large */
+    "reshape.histories", "audit.object.sparse", "reshape.probed.full-view", "reshape.probed.offset-view",
+    "reshape.alloc.240-bytes", "reshape.alloc.720-bytes", "reshape.alloc.64k-bytes", "reshape.alloc.128k-bytes", "reshape.alloc.256k-bytes", "reshape.alloc.1m-bytes",
+    "reshape.set.240-bytes", "reshape.set.720-bytes", "reshape.set.64k-bytes", "reshape.set.128k-bytes", "reshape.set.256k-bytes", "reshape.set.1m-bytes",
+    "reshape.onto-sole-owner", "reshape.onto-coowned", "reshape.onto-offset-view", "reshape.library-external-switch",
+    "reshape.same-shape-again", "reshape.same-shape-again.sole-owner.128k-or-more", "reshape.same-bytes.other-elem-size",
+    "reshape.same-bytes.other-elem-size.sole-owner.128k-or-more", "reshape.same-bytes.other-elem-size.coowned.128k-or-more",
+    "reshape.same-bytes.count-and-size-exchanged", "reshape.same-bytes.rewrapped-own-block", "reshape.slightly-smaller", "reshape.slightly-larger",
+    /* very many views of one buffer */
+    "manyviews.histories", "manyviews.more-than-65537-referrers", "manyviews.checkpoint.library", "manyviews.checkpoint.external",
+    "manyviews.up.referrers-255", "manyviews.up.referrers-256", "manyviews.up.referrers-257",
+    "manyviews.up.referrers-65535", "manyviews.up.referrers-65536", "manyviews.up.referrers-65537",
+    "manyviews.down.referrers-255", "manyviews.down.referrers-256", "manyviews.down.referrers-257",
+    "manyviews.down.referrers-65535", "manyviews.down.referrers-65536", "manyviews.down.referrers-65537",
+    "manyviews.release.refused.external-shared", "manyviews.release.refused.internal", "manyviews.release.refused.empty-object",
+    "manyviews.release.returned-buffer-to-last-of-many", "manyviews.reset.last-of-many.library", "manyviews.freed-exactly-once-at-the-end",
+    "manyviews.last-referrer.root", "manyviews.last-referrer.view", "manyviews.slice.beyond-view-inside-buffer",
+    NULL
 };
 static const struct vrt_harness H = { "array", ncases, run_case, winit, NULL, required, 16 };
 
